@@ -122,6 +122,40 @@ pub fn scenario(idx: usize, seed: u64) -> ScenarioResult {
                 keep_alive.push(adv);
             }
         }
+        // a party with an identity of its own that completes the handshake (sends its version frame)
+        // and closes the connection right behind it - a listener that shuts down, crashes or
+        // tie-breaks the connection away at that moment.  A dial to it may fail or succeed; if it
+        // returns Ok, the party was in the caller's connected set at some instant before that.
+        let flash_addr: SocketAddr = format!("10.69.{}.{}:7", (idx / 250) % 250, 1 + idx % 250).parse().unwrap();
+        let kz = w.gen_key();
+        let z = world::peer_id_of_key(&kz);
+        let with_flash = rng.gen_bool(0.5);
+        if with_flash {
+            w.registry.insert(flash_addr, world::Party { peer_id: z, key: kz, honest: false });
+            let ident = CertKey::honest(kz, "verif");
+            let adv = Adversary::new(&w.fabric, flash_addr, Some(Arc::new(move |_| Some(ident.clone()))));
+            let ep = adv.ep.clone();
+            let linger_us = *[0u64, 0, 100, 1_000, 5_000].get(rng.gen_range(0..5)).unwrap();
+            tokio::spawn(async move {
+                while let Some(inc) = ep.accept().await {
+                    tokio::spawn(async move {
+                        if let Ok(c) = inc.accept() {
+                            if let Ok(conn) = c.await {
+                                if let Ok(mut s) = conn.open_uni().await {
+                                    let _ = s.write_all(b"anemo\x00\x01\x00").await;
+                                    let _ = s.finish();
+                                }
+                                if linger_us > 0 {
+                                    tokio::time::sleep(Duration::from_micros(linger_us)).await;
+                                }
+                                conn.close(0u32.into(), b"gone");
+                            }
+                        }
+                    });
+                }
+            });
+            keep_alive.push(adv);
+        }
         // fault pattern for the handshake window
         let fault = rng.gen_range(0..4);
         let fault_name = match fault {
@@ -173,6 +207,8 @@ pub fn scenario(idx: usize, seed: u64) -> ScenarioResult {
                 let me = nodes[caller].peer_id;
                 let other = nodes[(caller + 1) % n].peer_id;
                 (nodes[caller].addr, match rng.gen_range(0..3) { 0 => None, 1 => Some(me), _ => Some(other) })
+            } else if with_flash && kind == 8 {
+                (flash_addr, match rng.gen_range(0..3) { 0 => None, 1 => Some(z), _ => Some(nodes[(caller + 1) % n].peer_id) })
             } else if with_impostor && kind < 6 {
                 (imp_addr, if rng.gen_bool(0.7) { Some(target_e) } else { None })
             } else {
